@@ -33,6 +33,14 @@ def run_programs(ctx, progs, part, checks, rule=None, compare=True, must_assembl
             fails.append({'check': 'accept', 'line': rec and rec['text'], 'ln': ln, 'compress': True, 'rec': rec,
                           'exc': res[True].get('exc'), 'emsg': res[True].get('msg', ''),
                           'msg': 'assembles without compression but with it fails: %s: %s' % (res[True].get('exc'), res[True].get('msg'))})
+        if any(r_.get('must_refuse') for r_ in p.recs):
+            for compress in (False, True):
+                if 'ok' in res[compress]:
+                    rec = next(r_ for r_ in p.recs if r_.get('must_refuse'))
+                    fails.append({'check': 'data', 'line': rec['text'], 'ln': rec['ln'], 'compress': compress,
+                                  'msg': 'a value that does not fit its width is accepted and emitted as %s instead of refused' % res[compress]['ok'][:32]})
+                    break
+            lays = {}
         if must_assemble and 'ok' not in res[False]:
             fails.append({'check': 'must-assemble', 'line': None, 'ln': None, 'compress': False,
                           'msg': 'valid program refused: %s: %s' % (res[False].get('exc'), res[False].get('msg'))})
